@@ -523,7 +523,7 @@ pub fn oov_plugins(p: &CfgParams, nl: u16, nr: u16) -> BoxedStrategy<Vec<OovPlug
         id(nl),
         id(nr),
         costs(),
-        select(vec!["[a-z]+[0-9]*", "[0-9a-z-]+", "[ア-ン]+", ".", "[a-z0-9]{2,4}", "(?:ab|a)+"]),
+        select(vec!["[a-z]+[0-9]*", "[0-9a-z-]+", "[ア-ン]+", ".", "[a-z0-9]{2,4}", "(?:ab|a)+", "a?", "[0-9]*"]),
         prop::option::of(1usize..40),
         prop::option::of(any::<bool>()),
     )
